@@ -1151,7 +1151,11 @@ def run(ctx):
     rng = ctx.sub_rng('read-invalid')
     inv = sorted(set(corpus.g1_invalid()))
     rng.shuffle(inv)
-    rcases = read_cases(ctx, rvalid, inv[:ctx.n(3, 12)])
+    # rejected texts whose syntax-error message quotes format-like text (`%`, `%s`, `{}`, back-slashes): the re-labelled
+    # message is the parser's message followed by the stream name, whatever characters the message contains
+    hostile = ['var pct = total % ;', 'rate %= ;', "var label = '100% sure' 'thing';", "x = '%(name)s' y", "a %s b",
+               'a {0} {} b', "'%d%%' '\\' %"]
+    rcases = read_cases(ctx, rvalid, hostile[:ctx.n(4, 7)] + inv[:ctx.n(3, 12)])
     for c in (wcases[:3] + rcases[:2]):
         ctx.sample(c)
     jf_w, td_w = explore(ctx, wcases, stats)
